@@ -531,6 +531,33 @@ fn check_wrapper(empty_ctor: bool, steps: &[WStep], cx: &mut Cx) -> Result<(), F
     let reply = Reply { id: 1, payload: Binary::default(), gas_used: 0, result: SubMsgResult::Ok(SubMsgResponse { events: vec![], data: None, msg_responses: vec![] }) };
     let r = fn_tag(c.reply(deps.as_mut(), mock_env(), reply));
     ensure!(r == want_reply, "C20:wrapper-entry-point:reply", "reply dispatches to {:?}, last supplied {:?} (steps {:?})", r, want_reply, steps);
+    // the same through an App: the wrapper is stored next to another wrapper that carries the same
+    // checksum but no optional entry points; every supplied entry point must still be reachable
+    {
+        let mut app = App::default();
+        let owner = app.api().addr_make("owner");
+        let mut decoy: W = ContractWrapper::new(w_exec, w_inst, w_query);
+        if let Some(ck) = want_ck {
+            decoy = decoy.with_checksum(ck);
+        }
+        let _decoy_id = app.store_code(Box::new(decoy));
+        let id = app.store_code(Box::new(build_wrapper(empty_ctor, steps)));
+        let addr = match app.instantiate_contract(id, owner.clone(), &Empty {}, &[], "w", Some(owner.to_string())) {
+            Ok(a) => a,
+            Err(e) => fail!("C20:wrapper-in-app:instantiate", "wrapper built with {:?} cannot be instantiated in an App: {}", steps, e),
+        };
+        let tag_of = |r: AnyResult<AppResponse>| -> Option<String> { r.ok().and_then(|r| r.events.iter().flat_map(|e| e.attributes.iter()).find(|a| a.key == "fn").map(|a| a.value.clone())) };
+        let s = tag_of(app.wasm_sudo(addr.clone(), &Empty {}));
+        ensure!(s == want_sudo, "C20:wrapper-in-app:sudo", "stored in an App next to a wrapper with the same checksum, sudo dispatches to {:?}, last supplied {:?} (steps {:?})", s, want_sudo, steps);
+        let m = tag_of(app.migrate_contract(owner.clone(), addr.clone(), &Empty {}, id));
+        ensure!(m == want_mig, "C20:wrapper-in-app:migrate", "stored in an App next to a wrapper with the same checksum, migrate dispatches to {:?}, last supplied {:?} (steps {:?})", m, want_mig, steps);
+        let e = tag_of(app.execute_contract(owner, addr, &Empty {}, &[]));
+        ensure!(e.as_deref() == Some("execute"), "C20:wrapper-in-app:execute", "execute dispatches to {:?}", e);
+        if let Some(ck) = want_ck {
+            let info = app.wrap().query_wasm_code_info(id);
+            ensure!(matches!(&info, Ok(i) if i.checksum == ck), "C20:wrapper-in-app:checksum", "CodeInfo of the stored wrapper reports {:?}, supplied {}", info.map(|i| i.checksum.to_hex()), ck.to_hex());
+        }
+    }
     let kinds: std::collections::BTreeSet<u8> = steps
         .iter()
         .map(|s| match s {
